@@ -89,11 +89,18 @@ Ltac ands := repeat match goal with H : (_ && _) = true |- _ => apply andb_prop 
 
 Lemma sgates_of_gates lk la la' prev cur univ cst deny w pc o au r :
   (forall h, mods_of pc h = mods cst h) ->
-  gates_ok lk la la' prev cur (mkCall o au (orc_of univ cst deny w)) r = true ->
+  gates_ok lk la la' prev cur (mkCall o au (fun _ => orc_of univ cst deny w)) r = true ->
   sgates_ok lk la la' w deny pc prev o au r = true.
 Proof.
   intros Hm G. unfold gates_ok, sgates_ok, gates_transfer, gates_mint, gates_recover, st_gate in *.
   cbn [c_op c_auths c_orc] in G.
+  change (eff_obs prev (mkCall o au (fun _ => orc_of univ cst deny w))) with
+    (mkOracle (o_verified (orc_of univ cst deny w)) (o_can_transfer (orc_of univ cst deny w))
+              (o_can_create (orc_of univ cst deny w)) (o_recovery (orc_of univ cst deny w))) in G.
+  change (idv_ok (mkOracle (o_verified (orc_of univ cst deny w)) (o_can_transfer (orc_of univ cst deny w))
+              (o_can_create (orc_of univ cst deny w)) (o_recovery (orc_of univ cst deny w))))
+    with (idv_ok (orc_of univ cst deny w)) in G.
+  cbn [o_can_transfer o_can_create] in G.
   destruct o; auto.
   - ands. rewrite Hm, <- (orc_transfer univ cst deny w).
     repeat (apply andb_true_intro; split); auto; eapply orc_verified; eauto.
@@ -124,7 +131,7 @@ Lemma tok_unchanged_clear univ s :
   tok_unchanged (strip (observe univ s)) (strip (observe univ (clear_logs s))) = true.
 Proof.
   unfold tok_unchanged, strip, observe. cbn.
-  rewrite (eqb_list_refl _ eqb_acct_refl), (eqb_list_refl _ Z.eqb_refl), Z.eqb_refl, !Bool.eqb_reflx. reflexivity.
+  rewrite (eqb_list_refl _ eqb_acct_refl), (eqb_list_refl _ Z.eqb_refl), Z.eqb_refl, !Bool.eqb_reflx, !eqb_oaddr_refl. reflexivity.
 Qed.
 
 Lemma cmp_unchanged_ext tok c c' :
@@ -137,21 +144,65 @@ Qed.
 Lemma bound_look_self tok c : bound_look [tok] (cobserve [tok] c) tok = Some (mem tok (bound c)).
 Proof. unfold bound_look, cobserve. cbn. rewrite N.eqb_refl. reflexivity. Qed.
 
-Lemma links_fail univ s o au X :
-  links_ok (strip (observe univ s)) (strip (observe univ (clear_logs s))) (mkCall o au X) false = true.
+(* the frame clauses of a token call that fails as a whole *)
+Lemma stok_frames_fail univ s o au X :
+  wf_call univ (mkCall o au X) = true ->
+  wf_call univ (mkCall o au X)
+  && links_ok (strip (observe univ s)) (strip (observe univ (clear_logs s))) (mkCall o au X) false
+  && allow_ok (mkCall o au X) false (pairs univ) (ob_allow (strip (observe univ s))) (ob_allow (strip (observe univ (clear_logs s))))
+  && (ob_supply (strip (observe univ (clear_logs s))) =? supply_after (strip (observe univ s)) (mkCall o au X) false) = true.
 Proof.
-  unfold links_ok, links_after. cbn. destruct o; cbn; rewrite !Bool.eqb_reflx; reflexivity.
+  intros Hwf. rewrite Hwf. cbn [andb].
+  assert (L : links_ok (strip (observe univ s)) (strip (observe univ (clear_logs s))) (mkCall o au X) false = true).
+  { unfold links_ok, links_after. cbn. destruct o; cbn; rewrite !eqb_oaddr_refl; reflexivity. }
+  rewrite L. cbn [andb].
+  unfold strip, observe. cbn [ob_allow ob_supply supply clear_logs supply_after].
+  rewrite Z.eqb_refl, andb_true_r.
+  apply (allow_ok_model (mkCall o au X) false s (clear_logs s)). intros pr. unfold allow_after. apply Z.eqb_refl.
+Qed.
+
+(* these clauses only look at the operation of the call *)
+Lemma links_ok_op p q c c' ok : c_op c = c_op c' -> links_ok p q c ok = links_ok p q c' ok.
+Proof. unfold links_ok, links_after. intros ->. reflexivity. Qed.
+Lemma allow_ok_op c c' ok prs : c_op c = c_op c' -> forall ps qs, allow_ok c ok prs ps qs = allow_ok c' ok prs ps qs.
+Proof.
+  intros E. induction prs as [|pr r IH]; intros ps qs; destruct ps, qs; cbn [allow_ok]; auto.
+  rewrite IH. unfold allow_after. rewrite E. reflexivity.
+Qed.
+Lemma supply_after_op p c c' ok : c_op c = c_op c' -> supply_after p c ok = supply_after p c' ok.
+Proof. unfold supply_after. intros ->. reflexivity. Qed.
+
+(* ... and of one that succeeds in the token model *)
+Lemma stok_frames hc univ s o au X Y s' out :
+  wf_call univ (mkCall o au Y) = true ->
+  step hc s (mkCall o au X) = (s', out) ->
+  wf_call univ (mkCall o au Y)
+  && links_ok (strip (observe univ s)) (strip (observe univ s')) (mkCall o au Y) (is_ok out)
+  && allow_ok (mkCall o au Y) (is_ok out) (pairs univ) (ob_allow (strip (observe univ s))) (ob_allow (strip (observe univ s')))
+  && (ob_supply (strip (observe univ s')) =? supply_after (strip (observe univ s)) (mkCall o au Y) (is_ok out)) = true.
+Proof.
+  intros Hwf Hs. rewrite Hwf. cbn [andb].
+  rewrite (links_ok_op _ _ (mkCall o au Y) (mkCall o au X) _ eq_refl).
+  rewrite (allow_ok_op (mkCall o au Y) (mkCall o au X) _ _ eq_refl).
+  rewrite (supply_after_op _ (mkCall o au Y) (mkCall o au X) _ eq_refl).
+  pose proof (links_ok_model hc univ (strip (observe univ s)) s _ s' out eq_refl eq_refl Hs) as L.
+  unfold links_ok in *. cbn [strip observe ob_cmp_at ob_idv_at] in *. rewrite L. cbn [andb].
+  pose proof (supply_model hc s _ s' out (strip (observe univ s)) eq_refl Hs) as S.
+  cbn [strip observe ob_supply ob_allow] in *. rewrite S, andb_true_r.
+  apply (allow_ok_model _ (is_ok out) s s'). intros pr. apply (allow_after_model hc s _ s' out pr Hs).
 Qed.
 
 (* a failing token call in the stack *)
 Lemma stok_fail cf univ tok s cst o au deny w :
   Inv s -> CInv cf cst ->
+  wf_call univ (mkCall o au (fun _ => mkOracle [] false false (w_recovered w))) = true ->
   smon_step cf univ tok (sobserve univ tok (mkSS s cst))
     (SI (STok o au deny w) Fail (sobserve univ tok (mkSS (clear_logs s) (cclear cst)))) = true.
 Proof.
-  intros HI HC. unfold smon_step, sobserve. cbn [so_tok so_cmp si_obs si_call si_out ss_tok ss_cmp is_ok].
+  intros HI HC Hwf. unfold smon_step, sobserve. cbn [so_tok so_cmp si_obs si_call si_out ss_tok ss_cmp is_ok].
   rewrite (shape_ok cf univ tok (clear_logs s) (cclear cst) HI HC). cbn [andb].
-  rewrite links_fail, (cmp_unchanged_ext tok cst (cclear cst) eq_refl eq_refl). cbn [andb].
+  rewrite (stok_frames_fail univ s o au _ Hwf). cbn [andb].
+  rewrite (cmp_unchanged_ext tok cst (cclear cst) eq_refl eq_refl). cbn [andb].
   unfold strip, observe. cbn.
   rewrite (eqb_list_refl _ eqb_acct_refl), Bool.eqb_reflx. reflexivity.
 Qed.
@@ -162,20 +213,21 @@ Proof. apply eqb_list_refl. apply eqb_entry_refl. Qed.
 (* a successful token call in the stack *)
 Lemma stok_ok hc cf univ tok s cst o au deny w s1 r c1 :
   Inv s -> CInv cf cst ->
-  step hc s (mkCall o au (orc_of univ (cclear cst) deny w)) = (s1, Ok r) ->
+  wf_call univ (mkCall o au (fun _ => mkOracle [] false false (w_recovered w))) = true ->
+  step hc s (mkCall o au (fun _ => orc_of univ (cclear cst) deny w)) = (s1, Ok r) ->
   feed tok deny (cmp_log s1) (cclear cst) = Ok c1 ->
   smon_step cf univ tok (sobserve univ tok (mkSS s cst))
     (SI (STok o au deny w) (Ok r) (sobserve univ tok (mkSS s1 c1))) = true.
 Proof.
-  intros HI HC Hs Hf.
-  set (c0 := mkCall o au (orc_of univ (cclear cst) deny w)) in *.
+  intros HI HC Hwf Hs Hf.
+  pose proof (stok_frames hc univ s o au _ _ s1 (Ok r) Hwf Hs) as FR.
+  set (c0 := mkCall o au (fun _ => orc_of univ (cclear cst) deny w)) in *.
   assert (HI1 : Inv s1).
   { pose proof (step_preserves_Inv hc s c0 HI) as P. rewrite Hs in P. exact P. }
   destruct (feed_spec tok deny _ _ _ Hf) as (FM & FB & FL & FN).
   cbn [mods bound mlog cclear] in FM, FB, FL, FN.
   assert (HC1 : CInv cf c1) by (apply (CInv_ext cf cst c1 FM FB HC)).
   destruct (step_logs hc s c0 s1 (Ok r) HI Hs) as [Hlog _].
-  pose proof (links_ok_model hc univ (strip (observe univ s)) s c0 s1 (Ok r) HI eq_refl eq_refl Hs) as HL.
   pose proof Hs as Hx. apply step_ok in Hx.
   assert (HS : sound_lk (clear_logs s) (fun a => look a (combine univ (map (acct_of s) univ)))).
   { intros a v L. apply look_sound in L. exact L. }
@@ -184,20 +236,18 @@ Proof.
   assert (HA' : sound_la s1 (fun o sp => look2 o sp (combine (pairs univ) (map (allow_of s1) (pairs univ))))).
   { intros o' sp v L. apply look2_sound in L. exact L. }
   destruct (exec_facts hc c0 (clear_logs s) r s1 _ _ _ (strip (observe univ s)) (observe univ s1)
-              HI HS HA HA' eq_refl eq_refl eq_refl eq_refl eq_refl Hx) as (G & A & P & _).
+              HI HS HA HA' eq_refl eq_refl eq_refl eq_refl eq_refl eq_refl eq_refl Hx) as (G & A & P & _).
   assert (Hm : forall h, mods_of (cobserve [tok] cst) h = mods (cclear cst) h).
   { intros h. rewrite mods_of_observe. reflexivity. }
   pose proof (sgates_of_gates _ _ _ _ _ univ (cclear cst) deny w (cobserve [tok] cst) o au r Hm G) as SG.
   unfold smon_step, sobserve. cbn [so_tok so_cmp si_obs si_call si_out ss_tok ss_cmp is_ok].
   rewrite (shape_ok cf univ tok s1 c1 HI1 HC1). cbn [andb].
-  replace (links_ok (strip (observe univ s)) (strip (observe univ s1))
-             (mkCall o au (mkOracle [] false false (w_recovered w))) true) with true
-    by (symmetry; exact HL).
+  cbn [is_ok] in FR. rewrite FR. cbn [andb].
   rewrite (cmp_unchanged_ext tok cst c1 FM FB). cbn [andb].
   cbn [strip observe ob_accts ob_allow ob_paused].
   replace (sgates_ok _ _ _ w deny (cobserve [tok] cst) _ o au r) with true by (symmetry; exact SG).
   cbn [andb].
-  rewrite (accts_ok_model _ (mkCall o au (mkOracle [] false false (w_recovered w))) r s s1 A univ). cbn [andb].
+  rewrite (accts_ok_model _ (mkCall o au (fun _ => mkOracle [] false false (w_recovered w))) r s s1 A univ). cbn [andb].
   replace (Bool.eqb (paused s1) (paused_after _ _)) with true
     by (symmetry; rewrite P; apply Bool.eqb_reflx).
   cbn [andb].
@@ -232,19 +282,19 @@ Qed.
 
 (* one step of the composed model: accepted by the monitor, invariants preserved *)
 Lemma smon_step_model hc cf univ tok s cst c ss' o :
-  Inv s -> CInv cf cst ->
+  Inv s -> CInv cf cst -> swf univ tok c = true ->
   sstep hc cf univ tok (mkSS s cst) c = (ss', o) ->
   smon_step cf univ tok (sobserve univ tok (mkSS s cst)) (SI c o (sobserve univ tok ss')) = true /\
   Inv (ss_tok ss') /\ CInv cf (ss_cmp ss').
 Proof.
-  intros HI HC H. unfold sstep in H. cbn [ss_tok ss_cmp] in H.
-  destruct c as [op au deny w|cc|].
-  - destruct (step hc s (mkCall op au (orc_of univ (cclear cst) deny w))) as [s1 out] eqn:Hs.
+  intros HI HC Hwf H. unfold sstep in H. cbn [ss_tok ss_cmp] in H.
+  destruct c as [op au deny w|cc|]; cbn [swf] in Hwf.
+  - destruct (step hc s (mkCall op au (fun _ => orc_of univ (cclear cst) deny w))) as [s1 out] eqn:Hs.
     destruct out as [r|].
     + destruct (feed tok deny (cmp_log s1) (cclear cst)) as [c1|] eqn:Hf.
       * injection H as <- <-. cbn [ss_tok ss_cmp]. split; [|split].
         { eapply stok_ok; eauto. }
-        { pose proof (step_preserves_Inv hc s (mkCall op au (orc_of univ (cclear cst) deny w)) HI) as P. rewrite Hs in P. exact P. }
+        { pose proof (step_preserves_Inv hc s (mkCall op au (fun _ => orc_of univ (cclear cst) deny w)) HI) as P. rewrite Hs in P. exact P. }
         { destruct (feed_spec tok deny _ _ _ Hf) as (FM & FB & _). apply (CInv_ext cf cst c1 FM FB HC). }
       * injection H as <- <-. cbn [ss_tok ss_cmp]. split; [|split]; auto. apply stok_fail; auto.
     + injection H as <- <-. cbn [ss_tok ss_cmp]. split; [|split]; auto. apply stok_fail; auto.
@@ -255,7 +305,7 @@ Proof.
     unfold smon_step, sobserve. cbn [so_tok so_cmp si_obs si_call si_out ss_tok ss_cmp].
     rewrite (shape_ok cf univ tok (clear_logs s) c1 HI HC1). cbn [andb].
     rewrite tok_unchanged_clear, andb_true_r.
-    apply (cmon_step_model cf [tok] (cobserve [tok] cst) cst cc c1 out HC eq_refl eq_refl Hc).
+    apply (cmon_step_model cf [tok] (cobserve [tok] cst) cst cc c1 out HC eq_refl eq_refl Hwf Hc).
   - injection H as <- <-. cbn [ss_tok ss_cmp]. split; [|split]; auto.
     unfold smon_step, sobserve. cbn [so_tok so_cmp si_obs si_call si_out ss_tok ss_cmp].
     rewrite (shape_ok cf univ tok (clear_logs s) (cclear cst) HI HC). cbn [andb].
@@ -263,12 +313,13 @@ Proof.
 Qed.
 
 Lemma smon_model hc cf univ tok cs : forall s cst i,
-  Inv s -> CInv cf cst ->
+  Inv s -> CInv cf cst -> forallb (swf univ tok) cs = true ->
   smon_from cf univ tok (sobserve univ tok (mkSS s cst)) (smodel_items hc cf univ tok (mkSS s cst) cs) i = 0%N.
 Proof.
-  induction cs as [|c cs IH]; intros s cst i HI HC; cbn [smodel_items smon_from]; auto.
+  induction cs as [|c cs IH]; intros s cst i HI HC Hwf; cbn [smodel_items smon_from]; auto.
+  cbn [forallb] in Hwf. apply andb_prop in Hwf. destruct Hwf as [Hw1 Hw2].
   destruct (sstep hc cf univ tok (mkSS s cst) c) as [ss' o] eqn:Hs. cbn [smon_from].
-  destruct (smon_step_model hc cf univ tok s cst c ss' o HI HC Hs) as (M & I1 & C1).
+  destruct (smon_step_model hc cf univ tok s cst c ss' o HI HC Hw1 Hs) as (M & I1 & C1).
   rewrite M. cbn [si_obs]. destruct ss' as [s' c']. apply IH; auto.
 Qed.
 
@@ -285,10 +336,10 @@ Qed.
 
 (* C04_stack_monitor_accepts_model *)
 Theorem check_stack_accepts_model : forall (hc : hostcfg) (cf : ccfg) (univ : list addr) (tok : addr) (cs : list scall),
-  0 <= max_modules cf ->
+  0 <= max_modules cf -> forallb (swf univ tok) cs = true ->
   check_stack (sobserve_model hc cf univ tok cs) = (0%N, 0%N, 0%N).
 Proof.
-  intros hc cf univ tok cs H0. unfold check_stack, sobserve_model. cbn [st_hc st_cf st_univ st_tok st_items].
+  intros hc cf univ tok cs H0 Hwf. unfold check_stack, sobserve_model. cbn [st_hc st_cf st_univ st_tok st_items].
   rewrite sdiff_model. unfold sinit. rewrite smon_model; auto.
   - exact Inv_init.
   - apply CInv_init. exact H0.
@@ -322,11 +373,13 @@ Theorem stack_gate : forall hc cf univ tok s cst o au deny w ss' r,
 Proof.
   intros hc cf univ tok s cst o au deny w ss' r HI HC H.
   unfold sstep in H. cbn [ss_tok ss_cmp] in H.
-  destruct (step hc s (mkCall o au (orc_of univ (cclear cst) deny w))) as [s1 out] eqn:Hs.
+  destruct (step hc s (mkCall o au (fun _ => orc_of univ (cclear cst) deny w))) as [s1 out] eqn:Hs.
   destruct out as [r1|]; [|discriminate].
   destruct (feed tok deny (cmp_log s1) (cclear cst)) as [c1|] eqn:Hf; [|discriminate].
   injection H as <- <-. cbn [ss_cmp].
-  pose proof (gates_thm hc s _ s1 r1 Hs) as G. cbn [c_op c_orc] in G.
+  pose proof (gates_thm hc s _ s1 r1 Hs) as G. cbn [c_op] in G.
+  unfold eff_orc, idv_ok in G. cbn [c_orc o_verified o_can_transfer o_can_create] in G.
+  change (fun a => existsb (N.eqb a) (o_verified (orc_of univ (cclear cst) deny w))) with (idv_ok (orc_of univ (cclear cst) deny w)) in G.
   destruct (step_logs hc s _ s1 (Ok r1) HI Hs) as [Hlog _].
   destruct (feed_spec tok deny _ _ _ Hf) as (_ & _ & FL & FN).
   rewrite Hlog in FL, FN. unfold expected_cmp_log in FL, FN. cbn [c_op mlog cclear app mods bound] in FL, FN.
